@@ -157,7 +157,7 @@ def run_poisoned(ctx, r, L, R, scheds, nsteps):
     rec.append(snap)
   traces = []
   for m in range(B):
-    hdr = {'L': L, 'R': R, 'sched': [int(x) for x in scheds[m]], 'gain': 1, 'eval': 0, 'order': 'wrap', 'label': 'poisoned-neighbour'}
+    hdr = {'L': L, 'R': R, 'sched': [int(x) for x in scheds[m]], 'gain': 1, 'eval': 0, 'order': 'wrap', 'label': 'poisoned-neighbour', 'noep': 0}
     traces.append(c15._events_from_run(hdr, rec, m, B))
   return traces
 
